@@ -149,7 +149,13 @@ func buildLookupWorld(s *sim.Sim, c *lookupCfg) (*H1, error) {
 				}
 			}
 			var knows []*simnet.Peer
-			for _, b := range buckets {
+			var cpls []int
+			for c := range buckets {
+				cpls = append(cpls, c)
+			}
+			sort.Ints(cpls)
+			for _, cp := range cpls {
+				b := buckets[cp]
 				if len(b) > c.K {
 					// drawn K-subset
 					idx := make([]int, len(b))
